@@ -178,6 +178,6 @@ func VerifC03_join_timed() {
 			vAssert(e.times[k]-prev >= T, "C09: a short slice (not the last) is delivered no earlier than Timeout after the previous delivery")
 		}
 	}
-	vAssert(vTickerStops() == vTickerCount(), "C19: the ticker is stopped when main returns")
+	vAssert(vTickersRunning() == 0, "C19: no ticker of the discipline is left running when main returns")
 	vReach("end")
 }
